@@ -124,7 +124,16 @@ impl StateMachine<'_> {
                     .output_buffer
                     .push_str(&tabs::expand(&self.raw_line, &self.config.tab_cfg));
                 self.painter.output_buffer.push('\n');
-                State::HunkZero(Unified, None)
+                // (the hunk goes on as the kind of diff it is: in a combined diff the lines
+                // after such a note still carry one marker column per parent)
+                let diff_type = match &self.state {
+                    HunkHeader(diff_type, _, _, _)
+                    | HunkMinus(diff_type, _)
+                    | HunkZero(diff_type, _)
+                    | HunkPlus(diff_type, _) => diff_type.clone(),
+                    _ => Unified,
+                };
+                State::HunkZero(diff_type, None)
             }
         };
         self.painter.emit()?;
